@@ -147,7 +147,7 @@ def random_list(rnd):
     words = ["Knuth", "Donald", "E.", "de", "la", "van", "{and}", "{Simon and Schuster}", "Andersen", "Sand", "and", "AND", "\\'Etienne",
              "{\\'E}douard", "J.~R.", "d'Alembert", "Land,", "Jr,", "andy", "Brand", "\\and", "an", "d", "{", "}", "\\", "x~and~y", "\\ ",
              "Strauß,", "İnan", "ﬁscher", "Großmann", "ａｎｄ", "ſand", "and\u00a0", "\u2003and",
-             "{Ernst \\} and Young}", "{AT\\{T and Labs}", "{a \\{ and \\} b}", "and{Lamport, L.}", "{x}and", "{Simon\nand\tSchuster}"]
+             "{Ernst \\} and Young}", "{AT\\{T and Labs}", "{a \\{ and \\} b}", "and{Lamport, L.}", "{x}and", "{Simon\nand\tSchuster}", "and}", "a}nd", "an}d", "}and", "and,", "\\and"]
     names = []
     for _ in range(rnd.randint(1, 60)):
         names.append(rnd.choice([" ", "\t", "\n", "  "]).join(rnd.choice(words) for _ in range(rnd.randint(1, 4))))
